@@ -6,6 +6,7 @@
 use vstd::prelude::*;
 use std::num::NonZeroU32;
 use std::mem::MaybeUninit;
+use std::mem;
 use std::marker::PhantomData;
 use std::cell::{Ref, RefCell, RefMut};
 use std::ptr::NonNull;
